@@ -3304,3 +3304,183 @@ func globKeepsOtherMatches(c *Check, a *Anchors) {
 	})
 	c.Floor("glob-keeps-other-matches", n, 1)
 }
+
+// renderedOutputVerbatim (C19): what the template engine produced is what the command gets.
+func renderedOutputVerbatim(c *Check, a *Anchors) {
+	c.Rule("rendered-output-verbatim", "in the templater the string a rendered template produced is returned as it is: no post-processing (strings.Replace*, Trim*, regexp replacement) is applied to the buffer the template was executed into — a forwarded argument or variable value that happens to contain the removed text loses those bytes")
+	n := 0
+	for _, fb := range c.P.BodiesIn(PkgTemplater) {
+		info := fb.Info()
+		// buffers that a template is executed into
+		bufs := map[*types.Var]bool{}
+		for _, call := range callsIn(fb, false) {
+			if fn, ok := callee(info, call).(*types.Func); ok && fn.Name() == "Execute" && fn.Pkg() != nil && strings.HasSuffix(fn.Pkg().Path(), "/template") && len(call.Args) >= 1 {
+				if u, ok := ast.Unparen(call.Args[0]).(*ast.UnaryExpr); ok && u.Op == token.AND {
+					if v := varOf(info, u.X); v != nil {
+						bufs[v] = true
+					}
+				}
+			}
+		}
+		if len(bufs) == 0 {
+			continue
+		}
+		c.Fn(fb.Root())
+		for _, r := range returnsOf(fb.Body) {
+			if len(r.Results) == 0 {
+				continue
+			}
+			res := r.Results[0]
+			uses := false
+			ast.Inspect(res, func(m ast.Node) bool {
+				if id, ok := m.(*ast.Ident); ok {
+					if v, ok := info.Uses[id].(*types.Var); ok && bufs[v] {
+						uses = true
+					}
+				}
+				return true
+			})
+			if !uses {
+				continue
+			}
+			n++
+			post := ""
+			ast.Inspect(res, func(m ast.Node) bool {
+				if pc, ok := m.(*ast.CallExpr); ok {
+					if fn, ok := callee(info, pc).(*types.Func); ok && fn.Pkg() != nil && (fn.Pkg().Path() == "strings" || fn.Pkg().Path() == "regexp" || fn.Pkg().Path() == "bytes") {
+						isMethod := fn.Type().(*types.Signature).Recv() != nil
+						if !isMethod || strings.HasPrefix(fn.Name(), "Replace") {
+							post = fn.Pkg().Name() + "." + fn.Name() + "(" + argsText(pc) + ")"
+						}
+					}
+				}
+				return true
+			})
+			c.Decide(post == "", "rendered-output-verbatim", "result@"+fnDisplay(fb.Root()), r.Pos(), "the rendered text is returned unchanged",
+				"the rendered text is passed through "+post+" before it is returned: those bytes disappear from every value — also from forwarded CLI arguments and shell-quoted variables")
+		}
+	}
+	c.Floor("rendered-output-verbatim", n, 1)
+}
+
+func argsText(call *ast.CallExpr) string {
+	var parts []string
+	for _, a := range call.Args[min(1, len(call.Args)):] {
+		parts = append(parts, exprStr(a))
+	}
+	return strings.Join(parts, ", ")
+}
+
+// sharedOutcomeCallIndependent (C03): the outcome recorded for a shared execution is returned to callers of either kind.
+func sharedOutcomeCallIndependent(c *Check, a *Anchors) {
+	c.Rule("shared-outcome-call-independent", "the error that the task body returns is recorded by the deduplication function and handed to every other caller of the same run: once / when_changed execution, so its shape must not depend on attributes of the call that happened to execute it. The body wraps a command failure as *TaskRunError only when its own call is direct (call.Indirect false); a direct caller that waits for an execution started by an indirect call therefore receives the bare exit status (exit 1 instead of 201, --exit-code not honoured)")
+	body := a.BodyClosure
+	if body == nil {
+		c.Errorf("shared-outcome-call-independent: task body not resolved")
+		return
+	}
+	c.Fn(body)
+	info := body.Info()
+	n := 0
+	// returns of the body governed by a condition on Call.Indirect
+	pm := parentMap(body.Body)
+	seen := map[string]bool{}
+	for _, r := range returnsOf(body.Body) {
+		res := errResult(r)
+		if res == nil || isNilLit(info, res) {
+			continue
+		}
+		for p := pm[ast.Node(r)]; p != nil; p = pm[p] {
+			ifs, ok := p.(*ast.IfStmt)
+			if !ok {
+				continue
+			}
+			onIndirect := false
+			ast.Inspect(ifs.Cond, func(m ast.Node) bool {
+				if sel, ok := m.(*ast.SelectorExpr); ok && fieldSel(info, sel, PkgTask, "Call", "Indirect") {
+					onIndirect = true
+				}
+				return true
+			})
+			if !onIndirect {
+				continue
+			}
+			key := "Call.Indirect shapes the recorded error@" + fnDisplay(body.Root())
+			if seen[key] {
+				continue
+			}
+			seen[key] = true
+			n++
+			c.Bad("shared-outcome-call-independent", key, ifs.Pos(), "inside the function whose result is recorded for (and returned to) every caller of a shared execution, the returned error depends on `"+exprStr(ifs.Cond)+"` of the executing call: a caller of the other kind gets the wrong error class")
+		}
+	}
+	if n == 0 {
+		c.OK("shared-outcome-call-independent", "no-call-attribute-in-shared-outcome@"+fnDisplay(body.Root()), body.Body.Pos(), "the recorded error does not depend on the executing call")
+		n = 1
+	}
+	c.Floor("shared-outcome-call-independent", n, 1)
+}
+
+// nodeIdentityImmutable (C20): what a node is does not depend on whether it has been read.
+func nodeIdentityImmutable(c *Check, a *Anchors) {
+	c.Rule("node-identity-immutable", "no method of a Taskfile node other than its constructor assigns a field that Location(), CacheKey() or ResolveEntrypoint() of the same node read: the cache key of a remote Taskfile and the base its relative includes are resolved against must be the same whether the file was just downloaded (online) or is served from the cache (--offline, server down), otherwise an approved copy is looked up under another key and is 'not found in the cache'")
+	n := 0
+	byType := map[string][]*FuncBody{}
+	for _, fb := range c.P.BodiesIn(PkgTaskfile) {
+		if fb.Decl != nil && fb.Decl.Recv != nil && strings.HasSuffix(recvOf(fb), "Node") {
+			byType[recvOf(fb)] = append(byType[recvOf(fb)], fb)
+		}
+	}
+	var names []string
+	for k := range byType {
+		names = append(names, k)
+	}
+	sort.Strings(names)
+	for _, tn := range names {
+		idFields := map[string]bool{}
+		for _, fb := range byType[tn] {
+			switch fb.Decl.Name.Name {
+			case "Location", "CacheKey", "ResolveEntrypoint", "ResolveDir":
+				info := fb.Info()
+				inspectBody(fb.Body, func(nd ast.Node) bool {
+					if sel, ok := nd.(*ast.SelectorExpr); ok {
+						if s := info.Selections[sel]; s != nil && s.Kind() == types.FieldVal && namedOf(s.Recv()) != nil && namedOf(s.Recv()).Obj().Name() == tn {
+							idFields[sel.Sel.Name] = true
+						}
+					}
+					return true
+				})
+			}
+		}
+		if len(idFields) == 0 {
+			continue
+		}
+		for _, fb := range byType[tn] {
+			info := fb.Info()
+			inspectBody(fb.Body, func(nd ast.Node) bool {
+				as, ok := nd.(*ast.AssignStmt)
+				if !ok {
+					return true
+				}
+				for _, l := range as.Lhs {
+					sel, ok := ast.Unparen(l).(*ast.SelectorExpr)
+					if !ok {
+						continue
+					}
+					s := info.Selections[sel]
+					if s == nil || s.Kind() != types.FieldVal || namedOf(s.Recv()) == nil || namedOf(s.Recv()).Obj().Name() != tn || !idFields[sel.Sel.Name] {
+						continue
+					}
+					n++
+					c.Fn(fb)
+					c.Bad("node-identity-immutable", sel.Sel.Name+"@"+tn+"."+fb.Decl.Name.Name, as.Pos(),
+						fmt.Sprintf("(*%s).%s assigns %s, which Location / CacheKey / ResolveEntrypoint of the node read: after a download the node names another location than before it, so relative includes resolve differently — and hit another cache key — online and offline", tn, fb.Decl.Name.Name, exprStr(sel)))
+				}
+				return true
+			})
+		}
+		n++
+		c.OK("node-identity-immutable", "identity-fields@"+tn, token.NoPos, fmt.Sprintf("identity fields of %s inventoried", tn))
+	}
+	c.Floor("node-identity-immutable", n, 3)
+}
